@@ -565,6 +565,11 @@ class ActionKinds:
             m = e.func.attr
             self.check_attr(e.func, base, m, sink)
             if base.kinds <= {'str'} and base.known:
+                if m == 'join' and args and sink:
+                    a0 = args[0]
+                    el = a0.elem
+                    if el is not None and el.known and not el.kinds <= {'str'}:
+                        sink('R5', e, f'`{norm(e)[:70]}`: str.join over elements of kind {el!r}: a non-string element (the Star of `a.*`) raises TypeError')
                 if m in STR_METHODS:
                     return vk('str')
                 if m in ('split', 'splitlines', 'rsplit'):
@@ -642,6 +647,29 @@ class ActionKinds:
             if isinstance(expr, ast.Name):
                 s2[expr.id] = v
             return s2
+        if isinstance(test, ast.Call) and dotted(test.func) in ('all', 'any') and len(test.args) == 1 and isinstance(test.args[0], (ast.GeneratorExp, ast.ListComp)) \
+                and len(test.args[0].generators) == 1 and not test.args[0].generators[0].ifs and isinstance(test.args[0].generators[0].target, ast.Name):
+            # all(isinstance(x, T) for x in E) true / any(not isinstance(x, T) for x in E) false: the elements of E are T;
+            # any(isinstance(x, T) for x in E) false / all(not isinstance ...) true: no element of E is T
+            gen = test.args[0].generators[0]
+            elt = test.args[0].elt
+            neg = False
+            if isinstance(elt, ast.UnaryOp) and isinstance(elt.op, ast.Not):
+                elt, neg = elt.operand, True
+            if isinstance(elt, ast.Call) and dotted(elt.func) == 'isinstance' and len(elt.args) == 2 and isinstance(elt.args[0], ast.Name) \
+                    and elt.args[0].id == gen.target.id:
+                which = dotted(test.func)
+                universal = (which == 'all' and branch) or (which == 'any' and not branch)      # the element test holds for every element
+                if universal:
+                    cur = self.ev(gen.iter, st, prod, pvar, None)
+                    ts = elt.args[1].elts if isinstance(elt.args[1], ast.Tuple) else [elt.args[1]]
+                    names = {(dotted(t) or UNK).split('.')[-1] for t in ts}
+                    el = cur.elem
+                    if el is not None and el.known:
+                        keep = {k for k in el.kinds if (k in names) != neg} if which == 'all' else {k for k in el.kinds if (k in names) == neg}
+                        if keep:
+                            return setn(gen.iter, V(cur.kinds, V(keep, el.elem, el.keys, el.nonempty), cur.keys, cur.nonempty))
+            return st
         if isinstance(test, ast.Call) and dotted(test.func) == 'isinstance' and len(test.args) == 2:
             cur = self.ev(test.args[0], st, prod, pvar, None)
             ts = test.args[1].elts if isinstance(test.args[1], ast.Tuple) else [test.args[1]]
